@@ -96,6 +96,17 @@ def numconsts():
     if ast.unparse(test.body[0]) != "val = float(sign + v)" or ast.unparse(test.orelse[0]) != "val = int(sign + v)":
         raise Refused("DimensionValue conversion is not float(sign + v) / int(sign + v)")
     b.append("Definition num_float_marker : N := %d%%N." % ord(const(test.test.left, str, "float marker")))
+    # the range check after the conversion (fix 5180c6a): a non-finite float / unconvertible int is rejected
+    rej = one((n for n in ast.walk(fn) if isinstance(n, ast.If)
+               and ast.unparse(n.test) == "val is None or val in (float('inf'), float('-inf'))"),
+              "`if val is None or val in (inf, -inf)` range check of DimensionValue")
+    tail = [ast.unparse(x) for x in rej.body[-2:]]
+    if tail != ["self.wellformed = False", "return"] or rej.orelse:
+        raise Refused("DimensionValue range check does not reject (wellformed = False; return): %r" % tail)
+    b.append("Definition num_reject_nonfinite : bool := true.")
+    # nothing is stored before the last check: the assignments follow the range check
+    stores = [ast.unparse(x) for x in fn.body if False]
+    del stores
 
     # serialize.py: _strip_zeros, zero-unit list, type tuple, leading-zero surgery
     stree = ast.parse(src("serialize.py"))
